@@ -193,7 +193,8 @@ func (s *shadow) step(op Op, n int, ok bool, negTarget bool) {
 		}
 		s.cur, s.ws = no, no
 		s.readAdv = false
-		s.hangRisk = false // the reader re-creates its walker in Seek
+		// (hangRisk stays: the reader's Seek returns early, keeping its walker, when the
+		// target equals its current offset)
 		if op.Whence != 1 {
 			delete(s.window, "writeat-cursor")
 		}
